@@ -239,36 +239,36 @@ def check(case):
                 obj["OFFSET"] = off
 
         exp_off = D(off.strip()) if off and off.strip() else D(0)
-        carriers = []
+        makers = []
         sm = SMSimfile(string="")
         fill(sm)
-        carriers.append(("sm", TimingData(sm)))
+        makers.append(("sm", lambda: TimingData(sm)))
         # FREEZES is an alias of STOPS on SM simfiles only, and only when the STOPS key is absent
         decoy = "7.000=7.000"
         if which == "STOPS":
             sm_alias = SMSimfile(string="")
             fill(sm_alias)
             sm_alias["FREEZES"] = sm_alias.pop("STOPS")
-            carriers.append(("sm-freezes-alias", TimingData(sm_alias)))
+            makers.append(("sm-freezes-alias", lambda: TimingData(sm_alias)))
             sm_both = SMSimfile(string="")
             fill(sm_both)
             sm_both["FREEZES"] = decoy
-            carriers.append(("sm-stops-and-stale-freezes", TimingData(sm_both)))
+            makers.append(("sm-stops-and-stale-freezes", lambda: TimingData(sm_both)))
         else:
             sm_empty = SMSimfile(string="")
             fill(sm_empty)
             sm_empty["STOPS"] = ""
             sm_empty["FREEZES"] = decoy
-            carriers.append(("sm-empty-stops-and-stale-freezes", TimingData(sm_empty)))
+            makers.append(("sm-empty-stops-and-stale-freezes", lambda: TimingData(sm_empty)))
             ssc_decoy = SSCSimfile(string="#VERSION:0.83;")
             fill(ssc_decoy)
             ssc_decoy["FREEZES"] = decoy
-            carriers.append(("ssc-with-freezes-key", TimingData(ssc_decoy)))
+            makers.append(("ssc-with-freezes-key", lambda: TimingData(ssc_decoy)))
         sm2 = SMSimfile(string=str(sm))
-        carriers.append(("sm-reloaded", TimingData(sm2)))
+        makers.append(("sm-reloaded", lambda: TimingData(sm2)))
         ssc = SSCSimfile(string="#VERSION:0.83;")
         fill(ssc)
-        carriers.append(("ssc", TimingData(ssc)))
+        makers.append(("ssc", lambda: TimingData(ssc)))
         ch = SSCChart()
         fill(ch)
         ch["NOTES"] = "0000\n0000\n0000\n0000\n"
@@ -277,20 +277,38 @@ def check(case):
             # unless the event list itself is the (empty) BPMS
             host = SSCSimfile(string="#VERSION:0.83;#BPMS:0.000=999.000;#OFFSET:9;")
             if any((ch.get(k) or "") for k in ("BPMS", "STOPS", "DELAYS", "WARPS")):
-                carriers.append(("ssc-chart", TimingData(host, ch)))
-        for name, td in carriers:
-            for key, attr in (("BPMS", "bpms"), ("STOPS", "stops"), ("DELAYS", "delays"), ("WARPS", "warps")):
-                got = getattr(td, attr)
-                if key == which:
-                    same(got, f"TimingData({name}).{attr}")
-                elif key == "BPMS":
-                    need(len(got) == 1 and got[0].beat == 0 and got[0].value.as_tuple() == D("120.000").as_tuple(), f"{name}: bpms {got!r}")
-                else:
-                    need(len(got) == 0, f"{name}: {attr} should be empty, got {got!r}")
-            need(
-                isinstance(td.offset, D) and td.offset == exp_off and (not (off and off.strip()) or td.offset.as_tuple() == exp_off.as_tuple()),
-                f"{name}: offset {td.offset!r}, expected {exp_off!r}",
-            )
+                makers.append(("ssc-chart", lambda: TimingData(host, ch)))
+        from simfile.sm import SMChart
+        from simfile.timing import Beat, BeatValue
+
+        # a chart that carries no timing data of its own: the simfile stays the source
+        makers.append(("sm-with-a-chart-without-timing", lambda: TimingData(sm, SMChart.blank())))
+        makers.append(("ssc-with-a-chart-without-timing", lambda: TimingData(ssc, SSCChart.blank())))
+        carriers = []
+        for rnd in (1, 2):
+            # round 2: the same sources read again after the lists of the first objects were edited in place - every
+            # TimingData owns its lists, nothing may be shared between objects or remembered per string
+            carriers = [(n + (" (read again after in-place edits of earlier objects)" if rnd == 2 else ""), fn()) for n, fn in makers]
+            for name, td in carriers:
+                for key, attr in (("BPMS", "bpms"), ("STOPS", "stops"), ("DELAYS", "delays"), ("WARPS", "warps")):
+                    got = getattr(td, attr)
+                    if key == which:
+                        same(got, f"TimingData({name}).{attr}")
+                    elif key == "BPMS":
+                        need(len(got) == 1 and got[0].beat == 0 and got[0].value.as_tuple() == D("120.000").as_tuple(), f"{name}: bpms {got!r}")
+                    else:
+                        need(len(got) == 0, f"{name}: {attr} should be empty, got {got!r}")
+                need(
+                    isinstance(td.offset, D) and td.offset == exp_off and (not (off and off.strip()) or td.offset.as_tuple() == exp_off.as_tuple()),
+                    f"{name}: offset {td.offset!r}, expected {exp_off!r}",
+                )
+            if rnd == 1:
+                for _n, td in carriers:
+                    for attr in ("bpms", "stops", "delays", "warps"):
+                        lst = getattr(td, attr)
+                        lst.append(BeatValue(Beat(999), D("9.5")))
+                        if len(lst) > 1:
+                            del lst[0]
         labels = ["events", "slot:" + which]
         if any("E" in v.upper() for _, v in case["events"]):
             labels.append("exponent-form")
